@@ -312,6 +312,12 @@ pub fn parse(l: &Lexed) -> PResult<File> {
         } else if !ann.is_empty() {
             return c.fail(true, "annotation not followed by a declaration");
         } else {
+            // no declaration of this language starts with a punctuation token (other than an attribute marker)
+            if let Some(t) = c.peek() {
+                if t.kind == crate::lex::TokKind::Punct && !matches!(t.text.as_str(), "@") {
+                    return c.fail(true, format!("a top-level declaration cannot start with `{}`", t.text));
+                }
+            }
             return c.fail(false, "unrecognised top-level construct");
         }
     }
